@@ -454,7 +454,7 @@ def k_c16(ctx):
             first = {}
             for k, args in cmds.items():
                 outs = set()
-                for pi in range(nproc):
+                for pi in range(min(nproc, 10) if k == "pdf" else nproc):      # a PDF takes seconds to typeset
                     if k == "pdf" and os.path.exists(os.path.join(wd, "out.pdf")): os.remove(os.path.join(wd, "out.pdf"))
                     rc, out, err = cli(args, wd, timeout=120); ctx.evaluations += 1
                     if k == "pdf" and rc == 0: out = open(os.path.join(wd, "out.pdf"), "rb").read()
